@@ -221,11 +221,16 @@ def do_prettybin(req):
             (lambda: lemmas.build_module(Bridge(), req['module']))
         with tempfile.TemporaryDirectory() as d:
             mk().serialize(Path(d) / 'm', OutputFormat.Binary, req['optimize'])
-            mk().serialize(Path(d) / 'm', OutputFormat.Pretty, req['optimize'])
+            out['pretty_ok'] = True
+            try:
+                mk().serialize(Path(d) / 'm', OutputFormat.Pretty, req['optimize'])
+            except lemmas.EXC as e:       # the binary files exist, the pretty ones could not be written
+                out['pretty_ok'] = False
+                out['pretty_error'] = type(e).__name__ + ': ' + str(e)[:150]
             out['phases'] = []
             for ph in ('gamma', 'claim', 'proof'):
                 bs = list(open(os.path.join(d, f'm.ml-{ph}'), 'rb').read())
-                steps = split_steps(open(os.path.join(d, f'm.pretty-{ph}'), encoding='utf-8').read())
+                steps = split_steps(open(os.path.join(d, f'm.pretty-{ph}'), encoding='utf-8').read()) if out['pretty_ok'] else []
                 out['phases'].append({'phase': ph, 'bytes': bs, 'steps': [{'kw': s['kw'], 'ops': s['ops']} for s in steps]})
         out['built'] = True
     except lemmas.EXC as e:
